@@ -55,6 +55,8 @@ def plan(tier, seed):
         shards.append(("bigtable", nt, 0))
     for which in range(4):
         shards.append(("wavelength", which))
+    for which in range(2):
+        shards.append(("interleaved", which))
     shards.append(("callers",))
     k = seed % len(shards)
     return shards[k:] + shards[:k]
@@ -196,7 +198,55 @@ def _run_wavelength(desc):
     return sh
 
 
+def _run_interleaved(desc):
+    """two indexers for two samples share ONE unitcell object and use different ring tolerances (the rings of a tetragonal cell with
+    c/a = 1.05 merge under one and not under the other); their calls are interleaved in every order that keeps each indexer's own
+    sequence (assigntorings, then score_all_pairs): each reports its own three grains exactly once"""
+    _, which = desc
+    from ImageD11 import indexing, unitcell as ucm
+    indexing.loglevel = 4
+    sh = Shard()
+    cell, sym, dsmax = [4.0, 4.0, 4.2, 90, 90, 90], "P", 0.9
+    hk, B = O.brute_hkls(cell, sym, dsmax)
+    hkls = np.array(sorted(hk), float)
+    nref = len(hkls)
+    samples = []
+    for smp in range(2):
+        rots = [O.rotation_from_axis_angle(*ROT_TABLE[(3 * smp + k + seed_of() + which) % len(ROT_TABLE)]) for k in range(3)]
+        ubis_true = [np.linalg.inv(np.dot(R, B)) for R in rots]
+        gv = np.concatenate([np.dot(np.dot(R, B), hkls.T).T for R in rots])
+        order = (np.arange(len(gv)) * 7919) % len(gv) if np.gcd(7919, len(gv)) == 1 else np.arange(len(gv))[::-1]
+        samples.append((ubis_true, np.ascontiguousarray(gv[order])))
+    # all interleavings of (A1, A2) and (B1, B2) that keep each indexer's own order
+    for order in (("A1", "B1", "A2", "B2"), ("A1", "B1", "B2", "A2"), ("B1", "A1", "A2", "B2"), ("B1", "A1", "B2", "A2"), ("A1", "A2", "B1", "B2"), ("B1", "B2", "A1", "A2")):
+        uc = ucm.unitcell(cell, sym)
+        ind = {"A": indexing.indexer(unitcell=uc, gv=samples[0][1].copy(), cosine_tol=0.002, minpks=int(0.8 * nref), hkl_tol=0.02, ds_tol=0.005, wavelength=0.3,
+                                     uniqueness=0.5, max_grains=100),
+               "B": indexing.indexer(unitcell=uc, gv=samples[1][1].copy(), cosine_tol=0.002, minpks=int(0.8 * nref), hkl_tol=0.02, ds_tol=0.02, wavelength=0.3,
+                                     uniqueness=0.5, max_grains=100)}
+        for step in order:
+            if step[1] == "1":
+                ind[step[0]].assigntorings()
+            else:
+                ind[step[0]].score_all_pairs()
+        indexing.loglevel = 4
+        for name, smp in (("A", 0), ("B", 1)):
+            found = [np.array(u) for u in ind[name].ubis]
+            m = [sum(1 for u in found if O.lattice_equivalent(u, t, tol=0.03)) for t in samples[smp][0]]
+            case = {"kind": "interleaved", "which": which, "order_of_calls": list(order), "indexer": name, "ds_tol": 0.005 if name == "A" else 0.02, "seed": seed_of()}
+            if len(found) != 3 or any(x != 1 for x in m):
+                sh.violation("completeness:indexers-sharing-a-unitcell:grain-not-reported-exactly-once", case, {"reported": len(found), "matches_per_true_grain": m})
+            sh.evaluations += 1
+            sh.nontrivial += 1
+        sh.states += 1
+    sh.outcomes.add(("interleaved", which))
+    sh.sample(case, limit=1)
+    return sh
+
+
 def run_shard(desc):
+    if desc[0] == "interleaved":
+        return _run_interleaved(desc)
     if desc[0] == "wavelength":
         return _run_wavelength(desc)
     if desc[0] == "bigtable":
@@ -527,6 +577,11 @@ def run_shard(desc):
 
 
 def replay(case):
+    if case.get("kind") == "interleaved":
+        os.environ["VERIF_SEED"] = str(case.get("seed", 0))
+        r = _run_interleaved(("interleaved", case["which"]))
+        v = [x for x in r.violations if x["case"]["order_of_calls"] == case["order_of_calls"] and x["case"]["indexer"] == case["indexer"]]
+        return (not v), {"violations": v[:2]}
     if case.get("kind") == "wavelength":
         os.environ["VERIF_SEED"] = str(case.get("seed", 0))
         r = _run_wavelength(("wavelength", case["which"]))
